@@ -99,7 +99,7 @@ func stageRef(c stage.Cfg) ref {
 			}
 			add("got", x)
 		}
-	case "take":
+	case "take", "seqtake":
 		r.names = []string{"got"}
 		for x := 1; x <= c.K && x <= c.N; x++ {
 			add("got", x)
